@@ -117,11 +117,21 @@ def load_known():
 
 def run_property(pid, tier="quick", prog=None, quiet=True):
     """Run the rules of one property; returns the Ctx (raises AnalysisError)."""
-    prog = prog or core.Program()
+    report = None
+    if prog is None:
+        if os.environ.get("VSA_NO_REFSUB"):
+            prog = core.Program()
+        else:
+            from . import refsub
+            prog, report = refsub.canonical_program()
     if prog.parse_errors:
         raise AnalysisError("unparsable module(s): %s" % prog.parse_errors)
     mod = importlib.import_module("vsa.rules.%s" % pid.lower())
     ctx = Ctx(prog, pid, tier, quiet)
+    ctx.refsub = report
+    if report and report["changed"]:
+        ctx.note("functions that differ from the reference tree: %d; analysed in their reference form after their summaries were found equal: %s; "
+                 "analysed as they are: %s" % (len(report["changed"]), report["substituted"], [x["function"] for x in report["not_substituted"]]))
     mod.run(ctx)
     return ctx, mod
 
@@ -165,9 +175,12 @@ def write_evidence(pid, tier, seed, ctx, mod, wall, new, known_hit, audit=None, 
         "notes": ctx.notes if ctx else [],
         "checker_cmd": "./check %s --tier %s" % (pid, tier),
         "trusted_base": ["CPython ast", "vsa engine (/verif/vsa)", "/verif/tables reference tables",
-                         "semantics of the numpy/scipy/matplotlib functions given transfer rules"],
+                         "semantics of the numpy/scipy/matplotlib functions given transfer rules",
+                         "/verif/reference (the tree on which the obligations were confirmed) and vsa.equiv (summary comparison)"],
         "exhaustive": False,
     }
+    if ctx is not None and getattr(ctx, "refsub", None):
+        cov["reference_substitution"] = ctx.refsub
     if audit is not None:
         cov["sensitivity_audit"] = audit
     if error:
